@@ -41,7 +41,9 @@ func isNodeType(t reflect.Type) bool {
 		return false
 	}
 	pt := reflect.PtrTo(t)
-	return pt.Implements(stmtT) || pt.Implements(exprT) || pt.Implements(bindingT)
+	// the binding nodes of a pattern are, besides the patterns themselves (IBinding), their elements: BindingElement (also
+	// the hole of [a,,b], which the tree prints as Binding()) and BindingObjectItem
+	return pt.Implements(stmtT) || pt.Implements(exprT) || pt.Implements(bindingT) || t.Name() == "BindingElement" || t.Name() == "BindingObjectItem"
 }
 
 type info struct {
